@@ -1,15 +1,23 @@
 """Corpus of values and built-in value-dependent types for C11, as terms the
 TLA+ judge understands, with their realisation as Python objects."""
 
+import enum
 import typing
 from collections.abc import Collection, Mapping, Sequence
 
-# classes: 1 object, 2 Collection, 3 Sequence, 4 Mapping, 5 int, 6 bool, 7 str, 8 tuple, 9 list, 10 dict, 11 float, 12 NoneType
-PARENTS = [[], [1], [2], [2], [1], [5], [3], [3], [3], [4], [1], [1]]
+
+class Mode(enum.IntEnum):
+    R = 1
+    W = 2
+
+
+# classes: 1 object, 2 Collection, 3 Sequence, 4 Mapping, 5 int, 6 bool, 7 str, 8 tuple, 9 list, 10 dict, 11 float, 12 NoneType,
+# 13 Mode (an IntEnum)
+PARENTS = [[], [1], [2], [2], [1], [5], [3], [3], [3], [4], [1], [1], [5]]
 CLS = {"object": 1, "Collection": 2, "Sequence": 3, "Mapping": 4, "int": 5, "bool": 6, "str": 7, "tuple": 8,
-       "list": 9, "dict": 10, "float": 11, "NoneType": 12}
+       "list": 9, "dict": 10, "float": 11, "NoneType": 12, "Mode": 13}
 PYCLS = {1: object, 2: Collection, 3: Sequence, 4: Mapping, 5: int, 6: bool, 7: str, 8: tuple, 9: list, 10: dict,
-         11: float, 12: type(None)}
+         11: float, 12: type(None), 13: Mode}
 
 
 def cls(name):
@@ -27,7 +35,7 @@ def vterm(v):
     if v is None:
         return {"t": "none", "v": 0}
     if isinstance(v, float):
-        return {"t": "float", "v": int(v * 2)}
+        return {"t": "float", "v": int(v * 2) if v == v and abs(v) != float("inf") else (10 ** 6 if v > 0 else -(10 ** 6))}
     if isinstance(v, tuple):
         return {"t": "tuple", "v": [arg(x) for x in v]}
     if isinstance(v, list):
@@ -43,7 +51,7 @@ def arg(v, name=""):
 
 
 CORPUS = [
-    0, 1, 2, -1, True, 1.5, 0.0, 1.0, None, "", "a", "ab", "b", "ba", "abab",
+    0, 1, 2, -1, True, 1.5, 0.0, 1.0, float("inf"), Mode.R, Mode.W, None, "", "a", "ab", "b", "ba", "abab",
     (), (1,), (1, "a"), ("a", 1), (1, 2), (True, "a"), ("a",), (1, "a", 2),
     [], [1], ["a"], [1, "a"], ["a", 1],
     {}, {"a": 1}, {"b": "x"}, {1: "a"}, {"a": "x", "b": 2},
@@ -82,6 +90,10 @@ def types(big=False):
     u_ab = {"k": "union", "args": [sw, swb], "py": ["or", sw["py"], swb["py"]]}
     T.append({"k": "inter", "args": [ewa, u_ab], "py": ["and", ewa["py"], u_ab["py"]]})
     T.append({"k": "inter", "args": [u_ab, ewa], "py": ["and", u_ab["py"], ewa["py"]]})
+    # literal values that are not plain int / float / str objects (judged against isinstance only)
+    T.append({"k": "opaque", "py": ["litenum", "R"]})
+    T.append({"k": "opaque", "py": ["litenum2"]})
+    T.append({"k": "opaque", "py": ["litinf"]})
     l0 = T[0]
     T.append({"k": "union", "args": [l0, sw], "py": ["or", l0["py"], sw["py"]]})
     # members whose bounds are nested (bool below int): each member only speaks for instances of its own bound
@@ -113,6 +125,12 @@ def real(py):
     k = py[0]
     if k == "lit":
         return typing.Literal[tuple(py[1])]
+    if k == "litenum":
+        return typing.Literal[Mode[py[1]]]
+    if k == "litenum2":
+        return typing.Literal[Mode.R, Mode.W]
+    if k == "litinf":
+        return typing.Literal[float("inf")]
     if k == "prod":
         args = tuple(real_term(a) for a in py[1])
         return tuple[args] if args else tuple[()]
